@@ -136,7 +136,32 @@ def _facts(repo):
     models = T.assigns(fit, "self.paths.model")
     if len(models) != 1 or T._dotted(models[0].value) != "model":
         raise T.TranslationError("NonLinearSearch.fit does not assign self.paths.model = model exactly once")
+    # ModifiedPrior (-x, abs x) can be stored: its dict() serialises any ModelObject operand (a bare prior too) and
+    # "modified" dictionaries are parsed by ModelObject.from_dict
+    mdict = T.find_function(ctree, "ModifiedPrior.dict")
+    tests = [n.test for n in ast.walk(mdict) if isinstance(n, ast.IfExp)]
+    if len(tests) != 1 or not (isinstance(tests[0], ast.Call) and T._dotted(tests[0].func) == "isinstance"
+                               and T._dotted(tests[0].args[0]) == "self.prior"):
+        raise T.TranslationError("ModifiedPrior.dict does not choose by isinstance(self.prior, ...)")
+    operand_cls = T._dotted(tests[0].args[1])
+    if operand_cls not in ("AbstractPriorModel", "ModelObject"):
+        raise T.TranslationError("ModifiedPrior.dict tests an unknown operand class %s" % operand_cls)
+    itree, _ = T.parse_file(repo, "autofit/__init__.py")
+    registered = [e.value for n in ast.walk(itree) if isinstance(n, ast.For) and isinstance(n.iter, ast.Tuple)
+                  and any(isinstance(c, ast.Call) and T._dotted(c.func) == "register_parser" for c in ast.walk(n))
+                  for e in n.iter.elts if isinstance(e, ast.Constant)]
+    global _MORE_FACTS
+    _MORE_FACTS = {
+        "modified_prior_storable": operand_cls == "ModelObject" and "modified" in registered,
+        # a parameter-free Model is written as "instance" only when _instance_is_exact(model)
+        "instance_only_when_exact": any(isinstance(n, ast.FunctionDef) and n.name == "_instance_is_exact" for n in mtree.body)
+        and any(isinstance(n, ast.Call) and T._dotted(n.func) == "_instance_is_exact"
+                for n in ast.walk(T.find_function(mtree, "ModelObject.dict"))),
+    }
     return compound, modified, bool(restores), has_dict, drawer_ok
+
+
+_MORE_FACTS = {}
 
 
 def _coq_opt_names(names):
@@ -215,6 +240,10 @@ def regenerate(repo=None):
         "Definition sets_sorted : bool := %s." % ("true" if sorts else "false"),
         "(* %s:NonLinearSearch.fit: self.paths.unique_tag = self.unique_tag (anything else fails the translation) *)" % ABSTRACT_SEARCH,
         "Definition fit_tag_from_search : bool := true.",
+        "(* ModifiedPrior.dict serialises every ModelObject operand and 'modified' dictionaries have a parser *)",
+        "Definition modified_prior_storable : bool := %s." % ("true" if _MORE_FACTS["modified_prior_storable"] else "false"),
+        "(* ModelObject.dict writes a parameter-free Model as 'instance' only when _instance_is_exact *)",
+        "Definition instance_only_when_exact : bool := %s." % ("true" if _MORE_FACTS["instance_only_when_exact"] else "false"),
         "",
     ]
     text = "\n".join(lines)
@@ -231,7 +260,8 @@ def regenerate(repo=None):
         "join_sep": {"source": repr(sep), "line": sep_line},
         "numpy_scalars_unwrapped": bool(unwraps),
         "sets_sorted": bool(sorts),
-        "facts": {"source": "numpy scalars unwrapped=%r sets sorted=%r " % (bool(unwraps), bool(sorts)) + "CompoundPrior.__identifier_fields__=%r ModifiedPrior.__identifier_fields__=%r from_dict restores "
+        "facts": {"source": "numpy scalars unwrapped=%r sets sorted=%r modified prior storable=%r instance only when exact=%r "
+                            % (bool(unwraps), bool(sorts), _MORE_FACTS["modified_prior_storable"], _MORE_FACTS["instance_only_when_exact"]) + "CompoundPrior.__identifier_fields__=%r ModifiedPrior.__identifier_fields__=%r from_dict restores "
                             "item_number=%r LogGaussianPrior.dict=%r Drawer search.json readable=%r" % (compound, modified, restores, has_dict, drawer_ok),
                   "line": 0},
     }
@@ -321,8 +351,8 @@ def ref_round(v):
 # generator of fit specifications
 # ---------------------------------------------------------------------------------------
 class Gen:
-    REPAIRED = ("arith", "item_number", "log_gaussian", "drawer")      # once findings, now part of every stream
-    KNOWN = ("modified", "fixed_model")                                 # features with a recorded finding: opt-in
+    REPAIRED = ("arith", "item_number", "log_gaussian", "drawer", "modified")   # once findings, now part of every stream
+    KNOWN = ("fixed_model",)                                            # features with a recorded finding: opt-in
     ALL = REPAIRED + KNOWN
 
     def __init__(self, rng, clean=True, max_depth=2, allow=None):
@@ -600,6 +630,20 @@ def is_fixed_model(e):
     return e["t"] == "model" and not has_prior_spec(e)
 
 
+def exact_fixed(e):
+    """ModelObject.dict writes a parameter-free Model as an "instance" (and it comes back as a plain object) only when
+    the constructor can rebuild it: every attribute a constructor argument, no tuple, every model object it holds a
+    Model that is exact itself (no Collection)"""
+    if e["t"] != "model" or e.get("extras"):
+        return False
+    for _, v in e["attrs"]:
+        if v["t"] in ("tuple", "coll", "prior", "binop", "unop"):
+            return False
+        if v["t"] == "model" and not exact_fixed(v):
+            return False
+    return True
+
+
 def item_number(e):
     if e["form"] in ("list", "append"):
         return len(e["items"])
@@ -629,6 +673,8 @@ def features(spec):
             f.add("item_number")
         if is_fixed_model(n):
             f.add("fixed_model")
+            if exact_fixed(n):
+                f.add("fixed_model_exact")
         if t == "prior":
             refs.append(n["ref"])
             if spec["pool"][n["ref"]]["fam"] == "LogGaussian":
@@ -943,9 +989,7 @@ def reload_labels(spec, how):
     Drawer search used to be labelled too; they are repaired and unlabelled now.)"""
     f = features(spec)
     labels = []
-    if "modified" in f:
-        labels.append("reload:modified")
-    if "fixed_model" in f:
+    if "fixed_model_exact" in f:
         labels.append("reload:fixed_model")
     return labels
 
@@ -1397,7 +1441,7 @@ def gen_cases(ctx):
     fits = 0
     for k in range(nbase):
         # 5 of 8 base specifications are free of every feature with a recorded finding, 2 use exactly one, 1 both
-        allow = [[], ["modified"], [], [], ["fixed_model"], [], [], list(Gen.KNOWN)][k % 8]
+        allow = [[], [], [], [], ["fixed_model"], [], [], list(Gen.KNOWN)][k % 8]
         gen = Gen(rng, allow=allow, max_depth=2 if k % 3 else 3)
         S = gen.fit()
         cases.append({"kind": "fit", "spec": S})
@@ -1581,7 +1625,7 @@ def oracle(c, r):
                 if pc and pc[0] is not None and pc[1] is not None and pc[0] != pc[1]:
                     # (a ModifiedPrior silently replaced by a default prior changes the count: that IS the recorded finding;
                     #  a fixed component never does)
-                    out.append(("reload changed the number of free parameters (%s -> %s)" % tuple(pc), ["reload:modified"]))
+                    out.append(("reload changed the number of free parameters (%s -> %s)" % tuple(pc), False))
                 if "reloaded_tag" in b and b.get("reloaded_tag") != c["a"].get("tag"):
                     out.append(("reload changed the unique tag", False))
             if b.get("route") in ("files", "fit") and "paths_identifier" in b:
@@ -1640,12 +1684,12 @@ def coq_terms(c, r):
             mr = "model_raised" in b
             # (not compared: the silent-default case above; plain objects whose constructor arguments cannot be read
             #  back from their attributes -- KW / Renamed -- are rebuilt with their defaults, outside Model.reload's assumption)
-            if not silent_default(S) and "dropping_instance" not in features(S):
+            if "dropping_instance" not in features(S):
                 out.append("CReload %s %s %s" % (node_term(S["model"], S["pool"]), cbool(mr), "ONone" if mr else obj_term(b["abs_model"])))
             sr = "search_raised" in b
             out.append("CReload %s %s %s" % (search_term(S["search"]), cbool(sr), "ONone" if sr else obj_term(b["abs_search"])))
         if c["b"].get("build", {}).get("route") in ("files", "fit") and "raised" not in b and b.get("abs_model") \
-                and "dropping_instance" not in features(c["b"]) and not silent_default(c["b"]):
+                and "dropping_instance" not in features(c["b"]):
             S = c["b"]
             out.append("CReload %s false %s" % (node_term(S["model"], S["pool"]), obj_term(b["abs_model"])))
     if k == "walk":
